@@ -163,17 +163,14 @@ fn emit(out: &mut Out, runner: &Runner, c: &MergeCase, with_stream: bool) {
 		let want = expected(&ins);
 		match &res {
 			Res::Tile(b) => {
-				let got = decode_tile(b).map(|t| {
-					let mut s = sem_tile(&t);
-					s.sort_by(|a, b| a.name.cmp(&b.name));
-					s
-				});
+				// no canonicalisation: the output layers must come in ascending order of their names (BTreeMap, /repo d0cb5799)
+				let got = decode_tile(b).map(|t| sem_tile(&t));
 				let kind = match &got {
 					None => "output_undecodable_or_compressed",
 					Some(g) => {
 						let names_ok = g.len() == want.len() && g.iter().zip(&want).all(|(a, b)| a.name == b.name);
 						if !names_ok {
-							"layer_names"
+							"layer_names_or_order"
 						} else {
 							// extent / version are not judged
 							let g2: Vec<SLayer> = g.iter().zip(&want).map(|(a, b)| SLayer { extent: b.extent, version: b.version, ..a.clone() }).collect();
